@@ -32,6 +32,7 @@ import (
 	"github.com/spf13/pflag"
 	"net/url"
 	"reflect"
+	"strconv"
 	"strings"
 	"time"
 )
@@ -198,6 +199,14 @@ func (ngc *ServerConfig) loadConfigMap(flags *pflag.FlagSet) error {
 func (ngc *ServerConfig) Load(flags *pflag.FlagSet) (err error) {
 	if err := ngc.loadConfigMap(flags); err != nil {
 		return err
+	}
+
+	// An empty string (e.g. NUTS_STRICTMODE= ) is decoded into 'false', which would silently disable strict mode.
+	// Strict mode may only be switched off explicitly.
+	if value, isString := ngc.configMap.Get("strictmode").(string); isString {
+		if _, err := strconv.ParseBool(value); err != nil {
+			return fmt.Errorf("invalid value for 'strictmode': '%s' (must be true or false)", value)
+		}
 	}
 
 	if err := loadConfigIntoStruct(ngc, ngc.configMap); err != nil {
